@@ -519,6 +519,11 @@ _GUARD_TY = re.compile(r"dashmap::mapref::(one::Ref|one::RefMut|one::MappedRef|e
                        r"std::sync::(mutex::)?MutexGuard|std::sync::(rwlock::)?RwLock(Read|Write)Guard|parking_lot::\w+Guard|lock_api::")
 
 
+def _fn_label(fn):
+    parts = [p for p in re.sub(r"<[^<>]* as [^<>]*>", "", M.short_fn(fn)).split("::") if p]
+    return "::".join(parts[-2:]) if parts and parts[-1].startswith("{") else (parts[-1] if parts else fn)
+
+
 def rule_guard_across_write(ctx):
     """no lock guard of the shared registry is held across a salsa input write, which blocks until every snapshot is gone"""
     rule = "guard-across-write"
@@ -529,14 +534,23 @@ def rule_guard_across_write(ctx):
                    "forward may-analysis over MIR (a guard is held from the call that returns it until it is dropped or moved away). A "
                    "guard kept \"to pin the entry\" deadlocks the owner against the snapshot it waits for")
     n = 0
+    # writers: the setter itself and every function that reaches it (a caller holding a guard around `set_overlay(..)` is the same defect)
+    ct = facts.calls_to()
+    writers = {k for k in ct if k.endswith("salsa::input::setter::Setter>::to")}
+    todo = list(writers)
+    while todo:
+        for c in ct.get(todo.pop(), []):
+            if c["from"] not in writers:
+                writers.add(c["from"])
+                todo.append(c["from"])
     for fn, bd in sorted(facts.bodies().items()):
-        if not bd["loc"][0].startswith(("lang/session/", "editor/")) or "::tests::" in fn:
+        if fn not in writers or "::tests::" in fn:
             continue
         m = facts.mir(fn)
         if m is None:
             continue
         b = M.Body(fn, m)
-        writes = [bb for bb in range(b.n) if b.term(bb)["k"] == "call" and re.search(r"salsa::input::setter::Setter>::to$", b.term(bb).get("fn") or "")]
+        writes = [bb for bb in range(b.n) if b.term(bb)["k"] == "call" and (b.term(bb).get("fn") or "") in writers]
         if not writes:
             continue
         n += len(writes)
@@ -575,11 +589,11 @@ def rule_guard_across_write(ctx):
                     work.append(s2)
         for bb in writes:
             held = sorted(held_at.get(bb, frozenset()))
-            ctx.check(not held, rule, "%s:write@%d" % (M.short_fn(fn).split("::")[-1], writes.index(bb) + 1), "%s calls a salsa input setter "
+            ctx.check(not held, rule, "%s:write@%d" % (_fn_label(fn), writes.index(bb) + 1), "%s calls a salsa input setter "
                       "while holding %s: the write blocks until every snapshot is dropped, and a snapshot analysis that needs the same "
                       "registry shard blocks on the guard first — neither can proceed" % (fn, [(b.local_name(g) or "_%d" % g, (b.local_ty(g) or "")[:60]) for g in held]),
-                      [bd["loc"][0], b.term(bb).get("ln")], detail={"fn": M.short_fn(fn).split("::")[-1]})
-    ctx.floor(rule, "salsa input writes inspected", n, 4)
+                      [bd["loc"][0], b.term(bb).get("ln")], detail={"fn": _fn_label(fn), "callee": M.short_fn(b.term(bb).get("fn") or "")[-60:]})
+    ctx.floor(rule, "salsa input writes (direct, or through a function that reaches one) inspected", n, 15)
 
 
 def rule_snapshot_shares(ctx):
